@@ -62,7 +62,7 @@ func bodyStagesD(r *RuleCtx, depth int) []string {
 			}
 		case depth < 2 && func() bool {
 			fn := callee(info, call)
-			if fn == nil || fn == r.FI.Obj || fn.Name() == "Body" || fn.Name() == "BodyNonAtomic" {
+			if fn == nil || fn == r.FI.Obj || objName(fn) == "Body" || objName(fn) == "BodyNonAtomic" {
 				return false
 			}
 			sig, _ := fn.Type().(*types.Signature)
